@@ -36,6 +36,8 @@ DEFAULT = {
     "p_default_params": 0.25,  # own parameters declared with a default value (def utility(c, w, k=3.0)) that differs from the value in
                                # params: the value stored under the function's name is what counts (decided on a random stream
                                # of its own, derived from the model, so that the main stream of the generator is unchanged)
+    "p_beta_outside": 0.12,    # beta outside [0, 1] (5/4, 3/2, 2, -1/2): legal in a finite-horizon problem; the continuation value is
+                               # weighted by exactly the number in params (own random stream, see p_default_params)
     "pad_states": 0,           # number of extra discrete states x0, x1, ... with one (sometimes two) labels and identity transitions:
                                # models with many variables (17+) at the cost of few cells
     "p_int_arith": 0.3,        # a payoff term built by INTEGER arithmetic on the restricted variables that goes negative: c * (a - r - 1)
@@ -97,7 +99,7 @@ ROWS3 = [[F(1), F(0), F(0)], [F(0), F(1), F(0)], [F(0), F(0), F(1)], [F(1, 2), F
 
 def rand_model(rng: random.Random, over=None):  # noqa: C901, PLR0912, PLR0915
     P = _profile(over)
-    for _ in range(200):
+    for _ in range(5000):     # (profiles with two stochastic states fit the size bound in 2 % of the attempts)
         m = _rand_model_once(rng, P)
         if m is not None:
             if rng.random() < P["p_undefined_outside"]:
@@ -105,6 +107,11 @@ def rand_model(rng: random.Random, over=None):  # noqa: C901, PLR0912, PLR0915
             r2 = random.Random(repr(sorted((f["name"], tuple(f["args"])) for f in m["funcs"])) + repr(m["T"]))
             if r2.random() < P["p_default_params"]:
                 default_params(r2, m)
+            r3 = random.Random("beta" + repr(sorted((f["name"], tuple(f["args"])) for f in m["funcs"])) + repr(m["T"]))
+            if (r3.random() < P["p_beta_outside"] and not P["inexact"] and 2 <= m["T"] <= 4
+                    and not m["meta"]["feat"].get("near_ties")):      # (near-tie levels times 4^T would leave TLC's integers)
+                m["params"]["beta"] = q(r3.choice([F(5, 4), F(3, 2), F(2), F(-1, 2)]))
+                m.setdefault("meta", {}).setdefault("feat", {})["beta_outside_unit_interval"] = True
             return m
     raise RuntimeError("generator could not satisfy the size bound")
 
